@@ -74,9 +74,11 @@ L2_PLAN = {
     "C02": [("seeds", 60, 10, "plain"), ("mixed", 20, 4, "plain")],
     "C13": [("inplace", 80, 12, "plain"), ("mixed", 30, 6, "plain")],
     "C06": [("inplace", 70, 11, "plain"), ("mixed", 25, 5, "plain"), ("seeds", 120, 20, "plain")],
+    "C07": [("mixed", 20, 4, "plain"), ("seeds", 80, 16, "plain")],
+    "C08": [("mixed", 25, 5, "httpfaults"), ("inplace", 150, 30, "httpfaults")],
     "C05": [("crash", 12, 2, "faults"), ("seeds", 250, 50, "faults"), ("mixed", 70, 14, "faults")],
 }
-L2_CAT = {"W0": "C13", "W1": "C13", "W2": "C13", "W3": "C13", "W4": "C13", "FETCH": "C06", "CRASH": "C05", "C16": "C16"}
+L2_CAT = {"MAXRUN": "C07", "RESUME": "C08", "RETRY": "C08", "W0": "C13", "W1": "C13", "W2": "C13", "W3": "C13", "W4": "C13", "FETCH": "C06", "CRASH": "C05", "C16": "C16"}
 
 
 def run_l2(prop, tier, out, workdir):
